@@ -3,6 +3,7 @@
 //! `log` + `verif-hooks`) under `catch_unwind`. Floats travel as IEEE-754 bit patterns.
 
 mod extra;
+mod wire;
 mod scalars;
 
 use momtrop::float::MomTropFloat;
